@@ -178,7 +178,7 @@ def check(pid, tier):
                 by.setdefault(t, []).append(x)
             replay = vlib.save_replay(pid, '%s-seed%d' % (tag.replace('.', '_'), vlib.seed()),
                                       dict(kind='codec-records', test=PLAN[pid]['test'], tags={t: len(v) for t, v in by.items()},
-                                           by_name={t: dict(__import__('collections').Counter(x['record'].get('name', x['record'].get('k')) for x in v).most_common(40)) for t, v in by.items()},
+                                           by_name={t: dict(__import__('collections').Counter(str(x['record'].get('name', x['record'].get('k'))) for x in v).most_common(40)) for t, v in by.items()},
                                            records=[x['record'] for t, v in by.items() for x in v[:5]]))
             print('VIOLATION property=%s replay=%s' % (pid, replay))
             print('  clauses flagged: %s' % {t: len(v) for t, v in by.items()})
